@@ -36,6 +36,17 @@ length-1 sequences also run every awake subset (forced as above, outputs pre-fil
 calls (all awake).  Oracle as above: the sleep-disabled full solve of the same state on a fresh Data (qacc, qacc_smooth,
 qfrc_constraint, nefc; frozen dofs exactly 0); additionally in an `A` world qfrc_constraint must be 0 (relative to the
 smooth force) and qacc must equal MuJoCo's gravity-only acceleration.
+
+Capacity histories on ONE Data with more dofs than the padded compact width (`hist` scenarios).  The compacted buffers are
+nvmax_pad = 16*floor((max(nvmax,1)+16)/16) wide; in the scenes above nv <= 14 < 16 <= nvmax_pad, and every awake subset runs on a
+fresh Data.  A third model (`apart3`: two free boxes resting on the floor and a limited / frictional 6-hinge chain, T=3 mutually
+decoupled trees of 6 dofs, nv=18) is run with capacities whose padded width is below nv (nvmax <= 15 -> 16) and above it
+(nvmax >= 16 -> 32).  For every capacity and EVERY sequence of awake subsets of length 2 (thorough: 3; world 1 carries the bijective
+image of world 0's subset) ONE Data is made and the subsets are applied one after the other: only qpos/qvel (sleepers have zero
+velocity), the forced tree_asleep / tree_awake and the sticky overflow word are replaced between the calls, the outputs are
+pre-filled with garbage.  After every call the oracle of the capacity grid is applied unchanged (overflow bit iff needed > nvmax,
+ncdof and both maps, frozen dofs exactly 0, awake trees equal to the full solve restricted to them, qfrc_constraint = J^T force).
+Entry `forward` (thorough: also `api`, histories of length 2).
 """
 
 import numpy as np
@@ -51,12 +62,19 @@ RULE = (
   "a tree (zero-acceleration oracle exercised on garbage-filled outputs) or overflowed (fault injected); distinct = (scene, jacobian, cone, nvmax, world-1 map). "
   "free scenes (worlds without constraint rows): every call sequence of length 1..2 over per-world states {A airborne, C contact}^2 "
   "x jacobian x cone x every poison byte of the wp.empty buffers; length 1 additionally x every awake subset and a 2-step run; "
-  "non-trivial = MuJoCo reports nefc == 0 in every A world and nefc > 0 in every C world of every call; distinct = (sequence, jacobian, cone, poison, alphabet)"
+  "non-trivial = MuJoCo reports nefc == 0 in every A world and nefc > 0 in every C world of every call; distinct = (sequence, jacobian, cone, poison, alphabet). "
+  "capacity histories: scene apart3 (nv=18 > padded compact width 16 of every nvmax <= 15, T=3 decoupled 6-dof trees) x jacobian x cone x nvmax in a set with "
+  "padded width both below and above nv x every sequence of awake subsets of the stated length applied to ONE Data (a scenario fixes the first subset and runs "
+  "all continuations, each on its own fresh Data) x entry; non-trivial = every tree of the all-awake reference carries non-zero constraint forces, at least one "
+  "call ran on a reused Data and at least one call froze a tree or overflowed; distinct = (entry, jacobian, cone, nvmax, first subset, length, alphabet)"
 )
 BOUNDS = {
   "quick": "nv=12, T=3, nvmax 0..12 all, 8 subsets for world 0 with world 1 = bijective image (3s+5 mod 8), 2 worlds, 1 state alphabet per seed; "
-  "free scenes: nv=14, T=3, 4+16 call sequences, 4 poison bytes, 8 subsets (length-1 sequences), default nvmax, 1 state alphabet",
-  "thorough": "same plus all 64 (world 0, world 1) subset pairs and a second state alphabet (also for the free scenes)",
+  "free scenes: nv=14, T=3, 4+16 call sequences, 4 poison bytes, 8 subsets (length-1 sequences), default nvmax, 1 state alphabet; "
+  "capacity histories: nv=18, T=3, nvmax in {6, 12, 15 (padded 16 < nv), 18 (padded 32)}, all 64 subset sequences of length 2 (world 1 = bijective image), "
+  "entry forward, 1 state alphabet",
+  "thorough": "same plus all 64 (world 0, world 1) subset pairs and a second state alphabet (also for the free scenes and the histories); "
+  "capacity histories: nvmax in {0, 6, 11, 12, 15, 16, 18}, all 512 sequences of length 3 through forward and all 64 of length 2 through the api entry",
 }
 ASSUMPTIONS = [
   "awake sets are forced through Data.tree_asleep self-cycles + sleep.update_sleep (the mechanism of sleep_test.py); sleeping trees carry zero velocity",
@@ -69,6 +87,10 @@ ASSUMPTIONS = [
   "free scenes: uninitialised (wp.empty) buffers are modelled by the four poison bytes of mc.world (set while the sleep-enabled Data is made and used; the "
   "reference runs unpoisoned); a world without rows has qacc = qacc_smooth and qfrc_constraint = 0 exactly in the full solve, the compacted solve may differ by f32dyn",
   "free scenes, second call of a history: only qpos and qvel are replaced (as a user would), nothing else of the Data is touched between the two forward() calls",
+  "capacity histories: between two calls on the same Data only qpos/qvel, the forced awake set (tree_asleep + update_sleep, or tree_awake for the api entry) "
+  "and the overflow word (sticky by design, zeroed as a user would after reading it) are replaced, qacc / qacc_smooth / qfrc_constraint are pre-filled with garbage "
+  "(forward entry); qpos is the same in every call (a sleeping tree's cached kinematics stay valid), the reference is the full solve of the call's own state on a fresh Data",
+  "capacity histories: the scene runs with iterations=16 (every Newton iteration is launched on the CPU backend; full and compacted solves converge within 6)",
   "CPU backend only",
 ]
 BUDGET = {"quick": 600, "thorough": 3600}
@@ -119,6 +141,42 @@ FREE_XML = """<mujoco>
     </body>
   </worldbody>
 </mujoco>"""
+# capacity histories: three mutually decoupled 6-dof trees (nv=18 > 16 = the padded compact width of every nvmax <= 15), every tree
+# with its own rows: two free boxes resting on the floor, a limited / frictional 6-hinge chain hanging in the air (owns dofs 12..17)
+def _chain6():
+  s, close = "", ""
+  for j in range(6):
+    s += '<body name="c%d" pos="%s">' % (j, "-1.5 0 2" if j == 0 else "0 0 -0.2")
+    close += "</body>"
+    s += '<joint name="g%d" type="hinge" axis="%s" limited="true" range="-0.3 0.3" frictionloss="%g" damping="0.05"/>' % (j, "0 1 0" if j % 2 == 0 else "1 0 0", 0.1 + 0.02 * j)
+    s += '<geom type="capsule" fromto="0 0 0 0 0 -0.2" size=".04" mass="%g" contype="0" conaffinity="0"/>' % (0.3 + 0.05 * j)
+  return s + close
+
+
+# iterations=16: on the CPU backend every Newton iteration is launched whether or not the worlds have converged (the cost of a call is
+# proportional to it); the full and the compacted solves of this scene converge (tolerance 1e-8) within 6 iterations for all four alphabets
+BIG_XML = (
+  """<mujoco>
+  <compiler angle="radian"/>
+  <option timestep="0.004" jacobian="{jac}" cone="{cone}" sleep_tolerance="0.01" iterations="16">{flag}</option>
+  <default><geom friction="0.8 0.02 0.01"/></default>
+  <worldbody>
+    <geom name="floor" type="plane" size="8 8 .1"/>
+    <body name="a" pos="0 0 0.098"><freejoint name="fa"/><geom name="abox" type="box" size=".1 .12 .1" mass="1.1"/></body>
+    <body name="b" pos="1.5 0 0.078"><freejoint name="fb"/><geom name="bbox" type="box" size=".15 .09 .08" mass="0.8"/></body>
+    """
+  + _chain6()
+  + """
+  </worldbody>
+</mujoco>"""
+)
+BIG = "apart3"
+DECOUPLED = ("apart", BIG)  # scenes whose inertia and constraints are block diagonal over trees
+# capacities: 6 / 12 / 18 fit exactly one / two / three trees, 15 fits two with slack; padded width 16 < nv for every nvmax <= 15, 32 above
+HIST_NVMAX = {"quick": (6, 12, 15, 18), "thorough": (0, 6, 11, 12, 15, 16, 18)}
+HIST_ENTRIES = {"quick": (("forward", 2),), "thorough": (("forward", 3), ("api", 2))}  # (entry, calls per history)
+
+
 # call sequences over the per-world state alphabet {A airborne, C contact}: all of length 1 and 2 (letter i = world i)
 FREE_CALLS = ("AA", "AC", "CA", "CC")
 FREE_SEQS = tuple((a,) for a in FREE_CALLS) + tuple((a, b) for a in FREE_CALLS for b in FREE_CALLS)
@@ -151,7 +209,17 @@ def scenarios(tier, seed):
           for poison in FREE_POISON:
             free.append(dict(kind="free", seq=list(seq), jac=jac, cone=cone, poison=poison, variant=variant))
   free.sort(key=lambda s: (s["variant"] != seed % 4, len(s["seq"])))
-  return free + out
+  # capacity histories on ONE Data (nv=18): the first awake subset is the scenario, the remaining calls are enumerated inside
+  hist = []
+  for variant in variants:
+    for entry, length in HIST_ENTRIES[tier]:
+      for jac in ("dense", "sparse"):
+        for cone in ("pyramidal", "elliptic"):
+          for k in HIST_NVMAX[tier]:
+            for first in range(8):
+              hist.append(dict(kind="hist", entry=entry, jac=jac, cone=cone, nvmax=k, first=first, length=length, variant=variant))
+  hist.sort(key=lambda s: (s["variant"] != seed % 4, s["entry"] != "forward", -s["nvmax"]))
+  return free + hist + out
 
 
 _M = {}
@@ -162,7 +230,7 @@ def _models(scene, jac, cone):
 
   key = (scene, jac, cone)
   if key not in _M:
-    xml, extra = (FREE_XML, {}) if scene == "free" else (XML, SCENES[scene])
+    xml, extra = (FREE_XML, {}) if scene == "free" else (BIG_XML, {}) if scene == BIG else (XML, SCENES[scene])
     mjm_s = util.load(xml.format(jac=jac, cone=cone, flag=SLEEP_FLAG, **extra))
     mjm_n = util.load(xml.format(jac=jac, cone=cone, flag="", **extra))
     m_s, m_n = mjw.put_model(mjm_s), mjw.put_model(mjm_n)
@@ -194,6 +262,32 @@ def _state(mjm, w, variant, subset):
     if not (subset >> t) & 1:
       d.qvel[_tree_dofs(mjm, t)] = 0.0
   return d
+
+
+def _state3(mjm, w, variant, subset):
+  """State of world w of the nv=18 scene: both boxes 2 mm inside the floor, four or five of the six hinges beyond their limit."""
+  import mujoco
+
+  d = mujoco.MjData(mjm)
+  k = w + variant
+  jadr = lambda n: int(mjm.jnt_qposadr[mujoco.mj_name2id(mjm, mujoco.mjtObj.mjOBJ_JOINT, n)])
+  fa, fb = jadr("fa"), jadr("fb")
+  d.qpos[fa + 0] += 0.004 * k
+  d.qpos[fb + 1] -= 0.003 * k
+  yaw = 0.2 + 0.3 * k  # box b stays flat on the floor
+  d.qpos[fb + 3 : fb + 7] = (np.cos(yaw / 2), 0.0, 0.0, np.sin(yaw / 2))
+  for j in range(6):
+    sign = 1.0 if (j + k) % 2 == 0 else -1.0
+    d.qpos[jadr(f"g{j}")] = sign * (0.25 if (j + k) % 5 == 0 else 0.31 + 0.004 * j)
+  d.qvel[:] = 0.05 * np.cos(np.arange(mjm.nv) + k)
+  for t in range(mjm.ntree):
+    if not (subset >> t) & 1:
+      d.qvel[_tree_dofs(mjm, t)] = 0.0
+  return d
+
+
+def _state_of(mjm):
+  return _state3 if mjm.nv == 18 else _state
 
 
 OUT = ("qacc", "qacc_smooth", "qfrc_constraint")
@@ -242,7 +336,7 @@ def _reference(key, subsets, variant):
     d = mjw.make_data(mjm_n, nworld=NW)
     inertia = []
     for w, s in enumerate(subsets):
-      st = _state(mjm_n, w, variant, s)
+      st = _state_of(mjm_n)(mjm_n, w, variant, s)
       util.copy_state(st, d, world=w)
       mujoco.mj_forward(mjm_n, st)
       inertia.append(util.mj_full_m(mjm_n, st))
@@ -286,7 +380,7 @@ def _oracle(c, tag, entry, scene, mjm, m, d, k, want_awake, ref, counts, check_f
   for w in range(NW):
     pre = f"{tag} world {w}: "
     aw = [t for t in range(mjm.ntree) if awake[w, t] == 1]
-    if check_forced and scene == "apart":
+    if check_forced and scene in DECOUPLED:
       # nothing couples the trees and sleepers have zero velocity: the forced set must survive the forward pass
       c.equal(pre + "awake set after forward", np.array(aw), np.array([t for t in range(mjm.ntree) if (want_awake[w] >> t) & 1]), vkey=f"{entry}:awake_set_changed")
     adofs = [i for t in aw for i in _tree_dofs(mjm, t)]
@@ -332,7 +426,7 @@ def _oracle(c, tag, entry, scene, mjm, m, d, k, want_awake, ref, counts, check_f
           c.fail(f"{entry}:all_awake:efc_type", pre + f"row types differ: {rg['type'].tolist()} vs {rr['type'].tolist()}")
         elif c.close(pre + "efc.J (rows matched)", rg["J"][og], rr["J"], "f32dyn", vkey=f"{entry}:all_awake:efc_J"):
           c.close(pre + "efc.force", rg["force"][og], rr["force"], "solver", vkey=f"{entry}:all_awake:efc_force")
-    if full or scene == "apart":
+    if full or scene in DECOUPLED:
       kind = "all_awake" if full else "partial"
       c.close(pre + "qacc_smooth[awake]", got["qacc_smooth"][w][adofs], ref["qacc_smooth"][w][adofs], "f32dyn", vkey=f"{entry}:{kind}:qacc_smooth")
       c.close(pre + "qfrc_constraint[awake]", got["qfrc_constraint"][w][adofs], ref["qfrc_constraint"][w][adofs], "solver", vkey=f"{entry}:{kind}:qfrc_constraint")
@@ -371,7 +465,7 @@ def _qacc_close(c, name, got, want, M, mjm, vkey):
 
 def _place(mjm, d, variant, subsets):
   for w, s in enumerate(subsets):
-    util.copy_state(_state(mjm, w, variant, s), d, world=w)
+    util.copy_state(_state_of(mjm)(mjm, w, variant, s), d, world=w)
 
 
 # ------------------------------------------------------------------------------- worlds without constraint rows
@@ -574,9 +668,78 @@ def _execute_free(scn):
   return c.result(nontrivial=as_intended, key=util.sha(scn), counts=counts, info=dict(nv=mjm_s.nv, mode=mode, checked=c.nchecked, maxrel=round(c.maxrel, 8), as_intended=bool(as_intended)))
 
 
+# ------------------------------------------------------------------------------- capacity histories on one Data
+
+
+def _execute_hist(scn):
+  """Every sequence of awake-subset pairs (world 0: first, then all; world 1: the bijective image) on ONE Data with capacity nvmax."""
+  import itertools
+
+  import mujoco_warp as mjw
+  from mujoco_warp._src import island, solver
+
+  key = (BIG, scn["jac"], scn["cone"])
+  mjm_s, m_s, mjm_n, m_n = _models(*key)
+  k, variant, entry, first, length = scn["nvmax"], scn["variant"], scn["entry"], scn["first"], scn["length"]
+  nv, ntree = mjm_s.nv, mjm_s.ntree
+  assert nv == 18 and ntree == 3 and all(int(n) == 6 for n in mjm_s.tree_dofnum)
+  mjm, m = (mjm_s, m_s) if entry == "forward" else (mjm_n, m_n)
+  c = util.Cmp()
+  counts = dict(extra_evaluations=-1, faults_injected=0, frozen_checked=0, sequences=0, calls_on_reused_data=0, tree_fell_asleep_on_reused_data=0, calls_padded_width_below_nv=0)
+  agg = dict(frozen=False, fault=False, solved=False)
+
+  ref_all = _reference(key, (7, 7), variant)
+  ref_ok = all(np.abs(ref_all["force"][w, : ref_all["nefc"][w]]).max() > 1e-3 for w in range(NW))
+  for t in range(ntree):
+    dofs = _tree_dofs(mjm_n, t)
+    ref_ok &= all(np.abs(ref_all["qfrc_constraint"][w][dofs]).max() > 1e-3 for w in range(NW))
+
+  pad = None
+  for rest in itertools.product(range(8), repeat=length - 1):
+    seq = [(s0, (3 * s0 + 5) % 8) for s0 in (first,) + rest]
+    d = mjw.make_data(mjm, nworld=NW, nvmax=k)
+    pad = int(d.nvmax_pad)
+    counts["sequences"] += 1
+    for i, subsets in enumerate(seq):
+      ref = _reference(key, subsets, variant)
+      hist = ">".join(f"{a:03b},{b:03b}" for a, b in seq[: i + 1])
+      tag = f"{BIG}/{scn['jac']}/{scn['cone']} nv={nv} nvmax={k} (padded {pad}) one Data, awake sets {hist} [{entry}, call {i}]"
+      if i == 0:
+        _place(mjm, d, variant, subsets)
+      else:
+        # the same Data is moved on: only the state (qvel of the sleepers differs), the sticky overflow word and the forced set change
+        st = [_state3(mjm, w, variant, subsets[w]) for w in range(NW)]
+        util.set_field(d.qpos, np.stack([s.qpos for s in st]))
+        util.set_field(d.qvel, np.stack([s.qvel for s in st]))
+        d.overflow.zero_()
+        counts["calls_on_reused_data"] += 1
+        counts["tree_fell_asleep_on_reused_data"] += sum(bin(seq[i - 1][w] & ~subsets[w] & 7).count("1") for w in range(NW))
+      counts["calls_padded_width_below_nv"] += int(pad < nv)
+      if entry == "forward":
+        _garbage(d)
+        _force_awake(m, d, subsets)
+        mjw.forward(m, d)
+      else:
+        mjw.forward(m, d)
+        util.set_field(d.tree_awake, np.array([[(s >> t) & 1 for t in range(ntree)] for s in subsets], dtype=np.int32))
+        island.update_active_dofs(m, d)
+        solver.smooth_solve_compact(m, d)
+        solver.solve_compact(m, d)
+      st = _oracle(c, tag, "hist_" + entry, BIG, mjm, m, d, k, subsets, ref, counts, check_forced=entry == "forward")
+      for a in agg:
+        agg[a] |= st[a]
+      counts["extra_evaluations"] += 1
+
+  counts["extra_evaluations"] = max(0, counts["extra_evaluations"])
+  nontrivial = ref_ok and (agg["frozen"] or agg["fault"]) and counts["calls_on_reused_data"] > 0
+  return c.result(nontrivial=nontrivial, key=util.sha(scn), counts=counts, info=dict(nv=nv, nvmax_pad=pad, checked=c.nchecked, maxrel=round(c.maxrel, 8), ref_ok=bool(ref_ok)))
+
+
 def execute(scn):
   if scn.get("kind") == "free":
     return _execute_free(scn)
+  if scn.get("kind") == "hist":
+    return _execute_hist(scn)
 
   import mujoco_warp as mjw
   from mujoco_warp._src import island, solver
